@@ -333,7 +333,7 @@ Qed.
 Lemma decode_auth_session W o st from wire i p x payload :
   auth_check W st from wire = AuthSession i p x payload ->
   exists s, find_sess (st_sessions st) from p = Some (i, s) /\
-            decode_packet W o st from wire = route st i s p x payload.
+            decode_packet W o st from wire = route_existing st i s p x payload.
 Proof.
   unfold auth_check, decode_packet.
   destruct (plain_decode wire) as [[p0 rest]|e|e]; try discriminate.
